@@ -63,7 +63,7 @@ struct Machine {
         polyseed_free(p);
         ptr[i] = nullptr; slot[i].reset(); crypted[i] = false;
     }
-    void finish() { for (int i = 0; i < NSLOTS; i++) release(i); }
+    void finish() { wrap().api = false; wrap().env_fake = nullptr; for (int i = 0; i < NSLOTS; i++) release(i); }
     // What the caller's output variables hold BEFORE a constructor / decoder call is none of the library's business: they are pre-set to NULL,
     // to the (dangling) address of the seed freed last — which the recycling allocator is about to hand out again —, to another live seed,
     // to a non-pointer; lang_out to NULL, to each registered language, to a non-pointer.  Results must be the same.
@@ -106,6 +106,7 @@ struct Machine {
         std::string what = code_name(o.code); cls[std::string("op:") + what]++;
         if (fl.check_statics) vf::static_guard().snapshot();
         std::string err;
+        if (wrap().enabled) { Wrap& w0 = wrap(); w0.api = true; w0.foreign_calls = 0; w0.env_fake = deps::env_value((uint64_t)o.a + 3 * o.b + o.c); }   /* the environment is an input too: every variable the library asks for has this value */
         Wrap& wr = wrap();
         switch (o.code) {
         case INJECT: {
@@ -254,6 +255,7 @@ struct Machine {
         case ARM_FAIL: { armed = (uint64_t)(o.a ? o.a : 1) | ((uint64_t)o.b << 8); cls["armed"]++; } break;
         }
         k.disarm(); (void)req0;
+        if (wrap().enabled) { Wrap& w0 = wrap(); w0.api = false; w0.env_fake = nullptr; if (w0.foreign_calls) { cls["foreign-source-consulted"]++; if (err.empty() && (fl.check_routing || fl.check_model)) err = std::string("the library called ") + w0.foreign_what + " during the call: the environment, libc random generators and other clocks are not among the injected functions, the enabled-feature mask and the libc defaults (time, malloc, free) the library may depend on"; } }
         if (log) { std::string l = what + " ->"; for (auto& p : cls) if (p.first.find(':') != std::string::npos && p.first.rfind("op:", 0) != 0 && p.first.rfind("cell:", 0) != 0) l += " " + p.first + "=" + std::to_string(p.second); for (int i = 0; i < NSLOTS; i++) if (ptr[i]) { lib::Image im = lib::store(ptr[i]); l += " slot" + std::to_string(i) + "=" + vf::hex(im.data(), 32); } if (!K().kdf.empty()) l += " kdf=" + lib::kdf_str(K().kdf.back()); log->push_back(l); }
         if (!err.empty()) return "step " + std::to_string(step_no) + " " + what + ": " + err;
         if (fl.check_statics) {
